@@ -44,17 +44,18 @@ func (x *FnCtx) call(fr *Frame, st *State, in ssa.Value, c *ssa.CallCommon) Valu
 		if !x.eng.openInterface(c.Value.Type()) {
 			impl := x.implementers(c.Value.Type())
 			if len(impl) == 1 {
-				if m := x.eng.prog.LookupMethod(impl[0], c.Method.Pkg(), c.Method.Name()); m != nil {
-					st.pc = x.tb.And(st.pc, x.tb.Eq(x.typeOf(recv), x.typeTag(impl[0])))
-					if _, isPtr := impl[0].(*types.Pointer); !isPtr {
-						full[0] = StructV{H: st.heap.Clone(), Ref: recv, T: impl[0]}
+				m := x.eng.prog.LookupMethod(impl[0], c.Method.Pkg(), c.Method.Name())
+				if pt, isPtr := impl[0].(*types.Pointer); isPtr && (m == nil || m.Synthetic != "") {
+					// value-receiver method reached through the pointer type: use the declared method
+					if vm := x.eng.prog.LookupMethod(pt.Elem(), c.Method.Pkg(), c.Method.Name()); vm != nil && vm.Synthetic == "" {
+						m = vm
 					}
-					// method with value receiver called through pointer type
+				}
+				if m != nil {
+					st.pc = x.tb.And(st.pc, x.tb.Eq(x.typeOf(recv), x.typeTag(impl[0])))
 					if m.Signature.Recv() != nil {
-						if _, vrecv := m.Signature.Recv().Type().(*types.Pointer); !vrecv {
-							if _, isPtr := impl[0].(*types.Pointer); isPtr {
-								full[0] = StructV{H: st.heap.Clone(), Ref: recv, T: m.Signature.Recv().Type()}
-							}
+						if _, precv := m.Signature.Recv().Type().(*types.Pointer); !precv {
+							full[0] = StructV{H: st.heap.Clone(), Ref: recv, T: m.Signature.Recv().Type()}
 						}
 					}
 					return x.callFunction(fr, st, m, full, nil, site, resT)
@@ -347,12 +348,13 @@ func (x *FnCtx) applyContract(fr *Frame, st *State, ctr *Contract, callee *ssa.F
 	pkg := x.calleePkg(ctr, callee)
 	ec := &EvalCtx{x: x, fn: callee, pkg: pkg, cur: st, old: pre, params: params, oldA: pre.heap.A}
 	for i, rq := range ctr.Requires {
-		g := ec.boolTerm(rq.E)
+		g, facts := ec.boolWithFacts(rq.E)
 		if ec.err != nil {
 			x.errs = append(x.errs, fmt.Sprintf("%s: requires of %s: %v", site, ctr.Key, ec.err))
 			ec.err = nil
 			continue
 		}
+		st.pc = tb.And(st.pc, facts)
 		x.addOb("pre", fmt.Sprintf("%s/pre#%d", site, i+1), st, g, false, rq.Src)
 		st.pc = tb.And(st.pc, g)
 	}
@@ -384,13 +386,13 @@ func (x *FnCtx) applyContract(fr *Frame, st *State, ctr *Contract, callee *ssa.F
 	}
 	pc := &EvalCtx{x: x, fn: callee, pkg: pkg, cur: st, old: pre, params: params, results: rtvs, resNames: resNames, oldA: pre.heap.A}
 	for _, en := range append(append([]Clause{}, ctr.Ensures...), ctr.Effects...) {
-		g := pc.boolTerm(en.E)
+		g, facts := pc.boolWithFacts(en.E)
 		if pc.err != nil {
 			x.errs = append(x.errs, fmt.Sprintf("%s: ensures of %s: %v", site, ctr.Key, pc.err))
 			pc.err = nil
 			continue
 		}
-		st.pc = tb.And(st.pc, g)
+		st.pc = tb.And(st.pc, g, facts)
 	}
 	for _, cb := range cbs {
 		name := "C." + elemKey(cb.t)
@@ -809,12 +811,13 @@ func (x *FnCtx) enterLoop(fr *Frame, st *State, li *loopInfo, pre **State, decr 
 	// establish invariants
 	ec := &EvalCtx{x: x, fn: fr.fn, pkg: pkgOf(fr.fn), cur: st, old: fr.entry, params: x.frameParams(fr), frame: fr, oldA: fr.entry.heap.A}
 	for i, inv := range ls.Invariants {
-		g := ec.boolTerm(inv.E)
+		g, facts := ec.boolWithFacts(inv.E)
 		if ec.err != nil {
 			x.errs = append(x.errs, fmt.Sprintf("%s invariant %d: %v", name, i+1, ec.err))
 			ec.err = nil
 			continue
 		}
+		st.pc = tb.And(st.pc, facts)
 		x.addOb("inv-init", fmt.Sprintf("%s/inv-init#%d", name, i+1), st, g, false, inv.Src)
 	}
 	*pre = st.Clone()
@@ -851,12 +854,12 @@ func (x *FnCtx) enterLoop(fr *Frame, st *State, li *loopInfo, pre **State, decr 
 	// assume invariants
 	ec2 := &EvalCtx{x: x, fn: fr.fn, pkg: pkgOf(fr.fn), cur: h, old: fr.entry, params: x.frameParams(fr), frame: fr, oldA: fr.entry.heap.A}
 	for _, inv := range ls.Invariants {
-		g := ec2.boolTerm(inv.E)
+		g, facts := ec2.boolWithFacts(inv.E)
 		if ec2.err != nil {
 			ec2.err = nil
 			continue
 		}
-		h.pc = tb.And(h.pc, g)
+		h.pc = tb.And(h.pc, g, facts)
 	}
 	for _, d := range ls.Decreases {
 		v := ec2.eval(d.E)
@@ -886,11 +889,12 @@ func (x *FnCtx) backEdge(fr *Frame, st *State, li *loopInfo, pre *State, decr []
 	name := fmt.Sprintf("%sloop%d", fr.prefix, li.ord)
 	ec := &EvalCtx{x: x, fn: fr.fn, pkg: pkgOf(fr.fn), cur: st, old: fr.entry, params: x.frameParams(fr), frame: fr, oldA: fr.entry.heap.A}
 	for i, inv := range ls.Invariants {
-		g := ec.boolTerm(inv.E)
+		g, facts := ec.boolWithFacts(inv.E)
 		if ec.err != nil {
 			ec.err = nil
 			continue
 		}
+		st.pc = tb.And(st.pc, facts)
 		x.addOb("inv-step", fmt.Sprintf("%s/inv-step#%d", name, i+1), st, g, false, inv.Src)
 	}
 	for i, d := range ls.Decreases {
